@@ -101,7 +101,11 @@ class HistGen:
         if k == "n":
             return "n:" + hx(a.path)
         if k == "k":
-            return "k:" + a.pk.hex()
+            # the fetcher resolves a key by its first 48 bytes: sometimes send a longer spelling
+            extra = ""
+            if not self.opts.get("clean") and self.r.chance(0.10):
+                extra = self.r.choice(["00", "ff", "0102", "00" * 16])
+            return "k:" + a.pk.hex() + extra
         return "b:%s:%s" % (hx(a.path), a.pk.hex())
 
     def epoch_pair(self, a):
